@@ -241,6 +241,25 @@ def assignment_cases():
     return cases
 
 
+def cast_cases():
+    """casts bind like prefix operators (tighter than * / %): the minimal form must equal the fully parenthesised form and the
+    value computed here; double operands make the grouping observable (values are dyadic, comparisons exact)"""
+    V = "    double x = 7.5;\n    double h = 0.5;\n    double y = 2.25;\n    int n = 3;\n    int k = 2;\n"
+    rows = [("(int)x * h", "((int)(x)) * (h)", "3.5"), ("(int)x / 2.0", "((int)(x)) / (2.0)", "3.5"), ("10.0 - (int)x * h", "(10.0) - (((int)(x)) * (h))", "6.5"),
+            ("(int)x % 4 * h", "(((int)(x)) % (4)) * (h)", "1.5"), ("(int)-x * h", "((int)(-(x))) * (h)", "-3.5"), ("-(int)x * h", "(-((int)(x))) * (h)", "-3.5"),
+            ("(int)(x + y) * h", "((int)((x) + (y))) * (h)", "4.5"), ("(long)x * (int)y * h", "(((long)(x)) * ((int)(y))) * (h)", "7.0"),
+            ("(int)x + h * 2.0", "((int)(x)) + ((h) * (2.0))", "8.0"), ("h * (int)x", "(h) * ((int)(x))", "3.5"), ("h + (int)x * h", "(h) + (((int)(x)) * (h))", "4.0"),
+            ("(int)x * (int)y * h", "(((int)(x)) * ((int)(y))) * (h)", "7.0"), ("(int)x * n * h", "(((int)(x)) * (n)) * (h)", "10.5"),
+            ("n * (int)x * h", "((n) * ((int)(x))) * (h)", "10.5"), ("(int)(x) * h", "((int)(x)) * (h)", "3.5"), ("(N) - k * h", "(N) - ((k) * (h))", "4.0"),
+            ("(int)x * h < 3.6 ? 1.0 : 2.0", "((((int)(x)) * (h)) < (3.6)) ? (1.0) : (2.0)", "1.0")]
+    cases = []
+    for i, (mn, fl, val) in enumerate(rows):
+        body = V + "    int N = 5;\n    double r1 = %s;\n    double r2 = %s;\n    println(r1 == r2, r1 == %s, r2 == %s);\n" % (mn, fl, val, val)
+        cases.append({"id": "cast-%d %s" % (i, mn), "program": "int main() {\n" + body + "    println(\"END\");\n    return 0;\n}\n",
+                      "expect_class": "ok", "expect_stdout": "1 1 1\nEND\n"})
+    return cases
+
+
 def main(a):
     c = RefCheck(PID, a, ["CbGen", "CbProofs", "CbProps.C02", "CbProps.C02Assign", "CbOblig.C02"], THEOREMS, translators=["ladder"])
     if not c.build():
@@ -255,6 +274,7 @@ def main(a):
     c.suite("operator-triples", triple_suite(a.seed, tri_ops), nontrivial=lambda r: hash(r.sexp))
     c.suite("random-trees", random_suite(a.seed, 150 if quick else 15000), nontrivial=lambda r: hash(r.sexp))
     c.raw_suite("assignment-level", assignment_cases())
+    c.raw_suite("casts", cast_cases(), max_report=4)
     return c.finish(
         rule="each program prints, per expression tree, its value under minimal parentheses (the specification table), "
              "under full parentheses and under random redundant parentheses; all three must equal the reference value. "
